@@ -1,5 +1,5 @@
 """Per-property claims (source of MANIFEST.json, regenerate with bin/mkmanifest.py)."""
-SOURCE_COMMITS = ["7e146d4", "9424340", "a1f5d2c", "8e587e5", "5690cd1", "d545c2f", "62723dc", "8131b7f", "100c501", "28b899b", "5d5fcc0"]   # fix: commits in /repo (no hook commits are needed)
+SOURCE_COMMITS = ["7e146d4", "9424340", "a1f5d2c", "8e587e5", "5690cd1", "d545c2f", "62723dc", "8131b7f", "100c501", "28b899b", "5d5fcc0", "dc78639"]   # fix: commits in /repo (no hook commits are needed)
 
 _NOTE = ("Trusted: PyVC (interpreter, VC generation), z3, the numpy/builtins stubs (assumed contracts of dependencies, listed in the "
          "evidence), floats treated as reals except in comparisons, unbounded ints, partial correctness. ")
@@ -31,6 +31,7 @@ for _p, _extra in {
 }.items():
     CHECKS[_p] = {"category": "other", "technique": _B, "text": _BT + _extra, "note": _NOTE + "Bounded extents (see evidence coverage.bounded.bounds)."}
 for _p, _extra in {
+    "C08": "parse_json(to_json(h)) field by field for every class x binning type, re-serialisation, version gate (require_compatible_version is unbounded).",
     "C15": "transform wiring of all seven classes (uninterpreted hypot/arctan2, 2*pi folding), mixin find_bin/fill/fill_n, projection class map.",
     "C16": "densities/bin_sizes/edges/centres/widths/cumulative of 1D and ND histograms, true bin measures and additivity for the seven special classes (cos uninterpreted).",
 }.items():
